@@ -209,7 +209,10 @@ def build_props(prop: str, extra_targets: Sequence[str] = ()) -> ProofResult:
     res.log = log
     for p, names in per_file.items():
         vo = p.with_suffix(".vo")
-        if vo.exists() and vo.stat().st_mtime >= p.stat().st_mtime:
+        # a file counts only if make itself considers its .vo up to date (a stale .vo left behind by a failed rebuild of the
+        # file or of one of its dependencies does not)
+        up_to_date = vo.exists() and (ok or sh(["make", "-q", str(vo.relative_to(COQ))], 120, cwd=COQ)[0] == 0)
+        if up_to_date:
             res.discharged += len(names)
         else:
             res.failed_files.append(str(p.relative_to(COQ)))
